@@ -9,7 +9,6 @@ import (
 	"errors"
 	"os"
 
-	"golang.org/x/exp/mmap"
 	"golang.org/x/sys/unix"
 )
 
@@ -20,7 +19,6 @@ const (
 type filePager struct {
 	f        *os.File
 	readLock *unix.Flock_t
-	mm       *mmap.ReaderAt
 }
 
 func newFilePager(file string) (*filePager, error) {
@@ -28,21 +26,17 @@ func newFilePager(file string) (*filePager, error) {
 	if err != nil {
 		return nil, err
 	}
-	mm, err := mmap.Open(file)
-	if err != nil {
-		f.Close()
-		return nil, err
-	}
 	return &filePager{
-		f:  f,
-		mm: mm,
+		f: f,
 	}, nil
 }
 
 // pages start counting at 1
 func (f *filePager) page(id int, pagesize int) ([]byte, error) {
+	// Read from the file itself: it can have grown (or shrunk) since it was
+	// opened, which a memory map made at open time does not follow.
 	buf := make([]byte, pagesize)
-	_, err := f.mm.ReadAt(buf[:], int64(id-1)*int64(pagesize))
+	_, err := f.f.ReadAt(buf[:], int64(id-1)*int64(pagesize))
 	return buf, err
 }
 
@@ -112,6 +106,5 @@ func (f *filePager) CheckReservedLock() (bool, error) {
 }
 
 func (f *filePager) Close() error {
-	f.f.Close()
-	return f.mm.Close()
+	return f.f.Close()
 }
